@@ -28,6 +28,7 @@ RULE = ("random programs of 5-40 events over objects drawn from {Operator, SelfA
         "distinct = (event-kind sequence, nesting profile, exception class); non-trivial iff at least one object was actually transformed (read inside a "
         "context whose transformation is not the identity) before the final check.")
 RULE = RULE + " Round-6 workloads: evolutions are given new initial conditions inside and outside contexts (REINIT events)."
+RULE = RULE + " Round-7 workloads: already diagonal context operators have their levels in any order (also with equal ones); the ordering clause is evaluated on the context's matrix whether or not the operator is read."
 ASSUMPTIONS = ["the transformation matrix the library puts on its stack is *validated* (orthogonal; diagonalises the context operator with ascending eigenvalues) "
                "and then used by the shadow stack: degenerate eigenvectors are not unique, so an independent eigh cannot predict the presented numbers",
                "failpoints are not placed inside the basis machinery itself (transform, transform_to_current_basis, __enter__/__exit__ of eigenbasis_of, the "
